@@ -103,7 +103,7 @@ type c29env struct {
 	srv  *tgtest.Server
 	keys []exchange.PublicKey
 	list dcs.List
-	boot []byte
+	boot [][]byte // restored sessions: [0] shared by most cells, the others for "fresh_key" cells
 
 	mu      sync.Mutex
 	seq     int64
@@ -265,9 +265,13 @@ func (e *c29env) runCell(spec cellSpec) (undecided string) {
 	logger := newRecLogger()
 	var readyCount atomic.Int64 // primary connection reported ready (Options.OnConnectionState)
 	storage := &session.StorageMemory{}
-	if !spec.Fresh {
-		_ = storage.StoreSession(context.Background(), append([]byte(nil), e.boot...))
+	// Key exchanges are done once, serially, before the table runs (tgtest's session table is not
+	// safe for an exchange concurrent with traffic); "fresh" cells use a key no other cell shares at that time.
+	boot := e.boot[0]
+	if spec.Fresh {
+		boot = e.boot[1+spec.Idx%(len(e.boot)-1)]
 	}
+	_ = storage.StoreSession(context.Background(), append([]byte(nil), boot...))
 	client := telegram.NewClient(1, "hash", telegram.Options{
 		PublicKeys:          e.keys,
 		DC:                  2,
@@ -319,7 +323,7 @@ func (e *c29env) runCell(spec cellSpec) (undecided string) {
 	case <-runDone:
 		return "Run returned before ready: " + fmt.Sprint(runErr)
 	case <-time.After(wdLong):
-		c.Sample("undecided-client-not-ready", map[string]any{"cell": spec, "dials": cnet.Dials(), "client_log": logger.Ring()})
+		c.Set("undecided_client_not_ready_example", map[string]any{"cell": spec, "dials": cnet.Dials(), "client_log": logger.Ring()})
 		return "client not ready"
 	}
 
@@ -644,7 +648,7 @@ func runC29(c *mon.Ctx) {
 	c.Rule("fault table {before send (write held / frame torn / bytes lost), after send (server executed, silent), after ack (ack consumed by the client, confirmed through the client's own logger), " +
 		"after result (caller returned)} x {reconnect, client close} x in-flight 1..3, enumerated completely for request 0 of every cell; the other in-flight requests take seeded stages incl. " +
 		"ack/result written right before the kill (either outcome allowed); variations: local socket close vs server-side disconnect, close after kill with network down / racing the reconnect / without kill, " +
-		"restored vs freshly exchanged key. Real telegram.Client over loopback TCP against tgtest; server handler logs every execution by the unique user id in users.getUsers. " +
+		"shared vs own restored key (all key exchanges happen serially before the table). Real telegram.Client over loopback TCP against tgtest; server handler logs every execution by the unique user id in users.getUsers. " +
 		"evaluation = one monitored request; distinct = (fault mode, kill side, stage, in-flight, caller outcome, server executions before+after fault)")
 	c.Assume("tgtest server is a faithful enough MTProto peer: it never acks or answers by itself for probe requests; harness dedupes a retransmit of the same msg_id in the same server session as a real server does")
 	c.Assume("'ack consumed' is read from the client's rpc logger record 'Acknowledged, waiting for result' (public Options.Logger boundary); without it the request is classed ack-inflight and nothing is demanded")
@@ -670,8 +674,8 @@ func runC29(c *mon.Ctx) {
 	}
 	env.keys, env.list = cl.Keys(), cl.List()
 
-	// Bootstrap: one key exchange; most cells restore this session instead of exchanging again.
-	{
+	// Bootstrap: a few key exchanges, one after the other; every cell restores one of these sessions.
+	for i := 0; i < 4; i++ {
 		st := &session.StorageMemory{}
 		bc := telegram.NewClient(1, "hash", telegram.Options{
 			PublicKeys: env.keys, DC: 2, DCList: env.list, SessionStorage: st, NoUpdates: true,
@@ -685,7 +689,7 @@ func runC29(c *mon.Ctx) {
 			c.Inconclusive(fmt.Sprintf("bootstrap client failed: %v / %v", err, berr))
 			return
 		}
-		env.boot = data
+		env.boot = append(env.boot, data)
 	}
 
 	// The table.
